@@ -73,6 +73,10 @@ import (
 	"go.opentelemetry.io/otel/trace/noop"
 	collectorlogs "go.opentelemetry.io/proto/otlp/collector/logs/v1"
 	collectortrace "go.opentelemetry.io/proto/otlp/collector/trace/v1"
+	common "go.opentelemetry.io/proto/otlp/common/v1"
+	logs "go.opentelemetry.io/proto/otlp/logs/v1"
+	resource "go.opentelemetry.io/proto/otlp/resource/v1"
+	trace "go.opentelemetry.io/proto/otlp/trace/v1"
 	"google.golang.org/grpc"
 	"google.golang.org/grpc/codes"
 	"google.golang.org/grpc/credentials/insecure"
@@ -1277,14 +1281,23 @@ func (r *E3Req) Set(k, v string) *E3Req {
 // Gzip / Zstd compress the body and set Content-Encoding.
 func (r *E3Req) Gzip() *E3Req {
 	var buf bytes.Buffer
-	w := gzip.NewWriter(&buf)
-	w.Write(r.Body)
-	w.Close()
+	e3GzipMu.Lock()
+	e3GzipW.Reset(&buf)
+	e3GzipW.Write(r.Body)
+	e3GzipW.Close()
+	e3GzipMu.Unlock()
 	r.Body = buf.Bytes()
 	return r.Set("Content-Encoding", "gzip")
 }
 
-var e3ZstdEnc, _ = zstd.NewWriter(nil)
+// small-window, single-threaded encoders: the bodies are tiny and the default
+// encoders spend milliseconds clearing their history tables
+var (
+	e3GzipMu     sync.Mutex
+	e3GzipW, _   = gzip.NewWriterLevel(io.Discard, gzip.BestSpeed)
+	e3ZstdEnc, _ = zstd.NewWriter(nil, zstd.WithEncoderConcurrency(1), zstd.WithEncoderLevel(zstd.SpeedFastest),
+		zstd.WithWindowSize(1<<16), zstd.WithLowerEncoderMem(true))
+)
 
 func (r *E3Req) Zstd() *E3Req {
 	r.Body = e3ZstdEnc.EncodeAll(r.Body, nil)
@@ -1540,9 +1553,13 @@ type E3BatchItem struct {
 	Data     *E3Val // KMap; nil omits the key
 	Order    []string
 	Extra    []E3KV
+	Raw      *E3Val // when set, the element is exactly this value (ill-typed elements)
 }
 
 func (it E3BatchItem) val() E3Val {
+	if it.Raw != nil {
+		return *it.Raw
+	}
 	order := it.Order
 	if order == nil {
 		order = []string{"time", "samplerate", "data"}
@@ -1609,6 +1626,73 @@ func e3OTLPReq(path, contentType, apiKey, dataset string, msg proto.Message) (*E
 		req.Body, err = proto.Marshal(msg)
 	}
 	return req, err
+}
+
+// E3Span / E3LogRec are the OTLP items the bench can generate. Attrs values may be
+// KStr, KInt, KBool, KF64 (anything else becomes its JSON text).
+type E3Span struct {
+	TraceID, SpanID, ParentID []byte
+	Name                      string
+	StartNs, EndNs            uint64
+	Attrs                     []E3KV
+}
+
+type E3LogRec struct {
+	TraceID, SpanID []byte
+	TimeNs          uint64
+	Body            string
+	Attrs           []E3KV
+}
+
+func e3OTLPAttrs(kvs []E3KV) []*common.KeyValue {
+	var out []*common.KeyValue
+	for _, kv := range kvs {
+		av := &common.AnyValue{}
+		switch kv.Val.Kind {
+		case KStr:
+			av.Value = &common.AnyValue_StringValue{StringValue: kv.Val.Str}
+		case KInt:
+			av.Value = &common.AnyValue_IntValue{IntValue: kv.Val.Int}
+		case KBool:
+			av.Value = &common.AnyValue_BoolValue{BoolValue: kv.Val.Bool}
+		case KF64, KF32:
+			av.Value = &common.AnyValue_DoubleValue{DoubleValue: kv.Val.F}
+		default:
+			av.Value = &common.AnyValue_StringValue{StringValue: kv.Val.String()}
+		}
+		out = append(out, &common.KeyValue{Key: kv.Key, Value: av})
+	}
+	return out
+}
+
+func e3OTLPResource(service string) *resource.Resource {
+	if service == "" {
+		return &resource.Resource{}
+	}
+	return &resource.Resource{Attributes: e3OTLPAttrs([]E3KV{KV("service.name", VStr(service))})}
+}
+
+// e3OTLPTraces builds one ResourceSpans/ScopeSpans holding spans.
+func e3OTLPTraces(service string, spans []E3Span) *collectortrace.ExportTraceServiceRequest {
+	var ss []*trace.Span
+	for _, s := range spans {
+		ss = append(ss, &trace.Span{TraceId: s.TraceID, SpanId: s.SpanID, ParentSpanId: s.ParentID, Name: s.Name,
+			StartTimeUnixNano: s.StartNs, EndTimeUnixNano: s.EndNs, Attributes: e3OTLPAttrs(s.Attrs)})
+	}
+	return &collectortrace.ExportTraceServiceRequest{ResourceSpans: []*trace.ResourceSpans{{
+		Resource: e3OTLPResource(service), ScopeSpans: []*trace.ScopeSpans{{Spans: ss}}}}}
+}
+
+// e3OTLPLogs builds one ResourceLogs/ScopeLogs holding recs.
+func e3OTLPLogs(service string, recs []E3LogRec) *collectorlogs.ExportLogsServiceRequest {
+	var ls []*logs.LogRecord
+	for _, r := range recs {
+		ls = append(ls, &logs.LogRecord{TraceId: r.TraceID, SpanId: r.SpanID, TimeUnixNano: r.TimeNs,
+			Body:       &common.AnyValue{Value: &common.AnyValue_StringValue{StringValue: r.Body}},
+			Attributes: e3OTLPAttrs(r.Attrs)})
+	}
+	return &collectorlogs.ExportLogsServiceRequest{ResourceLogs: []*logs.ResourceLogs{{
+		Resource: e3OTLPResource(service), ScopeLogs: []*logs.ScopeLogs{{LogRecords: ls}}}}}
 }
 
 // E3GRPCResult is the outcome of a unary gRPC call.
